@@ -202,19 +202,26 @@ def schedule(rng, tier):
     repo = os.environ.get('PYPOSE_REPO', '/repo')
     src = open(os.path.join(repo, 'pypose/basics/ops.py')).read()
     fn = [n for n in ast.walk(ast.parse(src)) if isinstance(n, ast.FunctionDef) and n.name == 'cumops_'][0]
-    loops = [n for n in ast.walk(fn) if isinstance(n, ast.For)]
+    loops = [n for n in fn.body if isinstance(n, ast.For)]
     if len(loops) != 1:
-        return dict(evaluations=0, distinct_nontrivial=0, rule='', failures=[dict(clause='schedule_extraction', signature='cumops_ no longer has exactly one for loop')], samples=[])
+        # the scan is no longer one top-level for loop: this mechanical extraction does not apply (the free-monoid run still decides every L)
+        return dict(evaluations=0, distinct_nontrivial=0, rule='', failures=[], samples=[], inconclusive='cumops_ no longer has exactly one top-level for loop; stride extraction not applicable')
     pre = [st_ for st_ in fn.body if st_.lineno < loops[0].lineno and not (isinstance(st_, ast.Expr) and isinstance(st_.value, ast.Constant))]
+    pre_code = compile(ast.Module(body=pre, type_ignores=[]), 'cumops_-prologue', 'exec')
     code = compile(ast.Expression(loops[0].iter), 'cumops_-strides', 'eval')
     N = 2 ** 13 if tier == 'quick' else 2 ** 17
     fails = []; evals = 0
-    class V:                        # stand-in for the tensor: only .device is read by the stride expression
+    class V:                        # stand-in for the tensor: only .shape / .device are read by the prologue and the stride expression
         device = torch.device('cpu')
+        def __init__(self, L): self.shape = (L,)
     for L in range(1, N + 1):
-        env_ = {'math': math, 'torch': torch, 'L': L, 'v': V(), 'input': V(), 'dim': 0}
+        env_ = {'math': math, 'torch': torch, 'input': V(L), 'dim': 0, 'ops': None}
         try:
+            exec(pre_code, env_)                      # L, v = input.shape[dim], input ; ... whatever precedes the loop
             strides = [int(x) for x in eval(code, env_)]
+        except (NameError, AttributeError, TypeError) as e:
+            return dict(evaluations=evals, distinct_nontrivial=evals, rule='', failures=[], samples=[],
+                        inconclusive=f'stride expression could not be evaluated outside the function ({type(e).__name__}: {e}); extraction not applicable')
         except Exception as e:
             fails.append(dict(clause='stride_schedule', signature=f'L={L}', error=f'{type(e).__name__}: {e}'[:120])); break
         evals += 1
